@@ -232,6 +232,10 @@ func (s *Server) followStep(host string, port int, followc int) error {
 		return errNoLongerFollowing
 	}
 	s.mu.Lock()
+	if int(s.followc.Load()) != followc {
+		s.mu.Unlock()
+		return errNoLongerFollowing
+	}
 	s.faofsz = 0
 	s.setCaughtUp(false)
 	auth := s.config.leaderAuth()
@@ -329,7 +333,14 @@ func (s *Server) followStep(host string, port int, followc int) error {
 
 	caughtUp := pos >= aofSize
 	if caughtUp {
+		// the caught up flag belongs to the current follow only
+		s.mu.Lock()
+		if int(s.followc.Load()) != followc {
+			s.mu.Unlock()
+			return errNoLongerFollowing
+		}
 		s.setCaughtUp(true)
+		s.mu.Unlock()
 		log.Info("caught up")
 	}
 
@@ -359,6 +370,10 @@ func (s *Server) followStep(host string, port int, followc int) error {
 			if aofsz >= int(aofSize) {
 				caughtUp = true
 				s.mu.Lock()
+				if int(s.followc.Load()) != followc {
+					s.mu.Unlock()
+					return errNoLongerFollowing
+				}
 				s.flushAOF(false)
 				s.setCaughtUp(true)
 				s.mu.Unlock()
